@@ -864,6 +864,12 @@ class Interp:
             return {"<": a < b, "<=": a <= b, ">": a > b, ">=": a >= b}[name]
         if A.is_numlike(a) and A.is_numlike(b):
             return A.elementwise(name, a, b)
+        containers = (dict, list, set, LocalObj, ObjRef)
+        num = (int, float, T.Term, Arr)
+        if (isinstance(a, containers) or hasattr(a, "pyvc_for") or hasattr(a, "pyvc_as_mapping")) and isinstance(b, num) \
+                or (isinstance(b, containers) or hasattr(b, "pyvc_for") or hasattr(b, "pyvc_as_mapping")) and isinstance(a, num):
+            # ordering a container / object against a number: python raises TypeError
+            raise PyRaise(ExcValue("TypeError", (f"'{name}' not supported between these operands",), ("Exception",)))
         raise Unsupported(f"comparison {name} on {type(a).__name__}, {type(b).__name__}")
 
     def identical(self, a, b):
